@@ -67,6 +67,77 @@ def rustc_value_forms(res):
     return bad
 
 
+# patterns stamped out by a caller's macro_rules! repetition: the tokens of sibling sub-patterns are then THE SAME tokens of the
+# helper's body (same spans, same line and column), which never happens in a hand-written pattern.  Every node must still be
+# defined exactly once and referred to by its own name.  (helper definition, call that passes, call that fails)
+REPEATED = [
+    ("wildcard struct, one comparison per listed field",
+     "($v:expr, $($f:ident),+) => { assert_struct!($v, _ { $($f: > 0,)+ .. }) }", "R3 { a: 1, b: 2, c: 3 }, a, b, c", "R3 { a: 1, b: 0, c: 0 }, a, b, c"),
+    ("named struct, one range per listed field",
+     "($v:expr, $($f:ident),+) => { assert_struct!($v, R3 { $($f: 1..=9,)+ }) }", "R3 { a: 1, b: 2, c: 3 }, a, b, c", "R3 { a: 1, b: 0, c: 0 }, a, b, c"),
+    ("named struct, one closure per listed field",
+     "($v:expr, $($f:ident),+) => { assert_struct!($v, R3 { $($f: |cl_x| *cl_x > 0,)+ .. }) }", "R3 { a: 1, b: 2, c: 3 }, a, b", "R3 { a: 1, b: 0, c: 0 }, b, c"),
+    ("nested: Some(_ { f: == e, .. }) per pair",
+     "($v:expr, $($f:ident = $e:expr),+) => { assert_struct!($v, Some(_ { $($f: == $e,)+ .. })) }", "Some(R3 { a: 1, b: 2, c: 3 }), a = 1, b = 2, c = 3", "Some(R3 { a: 1, b: 2, c: 3 }), a = 1, b = 3, c = 4"),
+    ("slice, one `== e` per element",
+     "($v:expr, $($e:expr),+) => { assert_struct!($v, [ $(== $e,)+ ]) }", "vec![1, 2, 3], 1, 2, 3", "vec![1, 2, 3], 1, 3, 2"),
+    ("slice, one nested struct pattern per element",
+     "($v:expr, $($e:expr),+) => { assert_struct!($v, [ $(R3 { a: == $e, .. },)+ ]) }", "vec![R3 { a: 1, b: 0, c: 0 }, R3 { a: 2, b: 0, c: 0 }], 1, 2", "vec![R3 { a: 1, b: 0, c: 0 }, R3 { a: 2, b: 0, c: 0 }], 2, 1"),
+    ("set, one `== e` per element",
+     "($v:expr, $($e:expr),+) => { assert_struct!($v, #( $(== $e),+ )) }", "vec![1, 2, 3], 3, 1, 2", "vec![1, 2, 3], 3, 3, 2"),
+    ("set with rest, one comparison per element",
+     "($v:expr, $($e:expr),+) => { assert_struct!($v, #( $(> $e,)+ .. )) }", "vec![1, 2, 3], 0, 1", "vec![1, 2, 3], 2, 2"),
+    ("tuple, one indexed element per index",
+     "($v:expr, $($i:tt),+) => { assert_struct!($v, ( $($i: > 0,)+ )) }", "(1, 2, 3), 0, 1, 2", "(1, 0, 0), 0, 1, 2"),
+    ("tuple variant, one string pattern per argument",
+     "($v:expr, $($e:expr),+) => { assert_struct!($v, RV::T( $(== $e),+ )) }", "RV::T(1, 2), 1, 2", "RV::T(1, 2), 2, 1"),
+    ("map, one value comparison per bound (the key is written in the helper: a key token from the caller's context is O17 again)",
+     "($v:expr, $($e:expr),+) => { assert_struct!($v, #{ $(\"x\": >= $e,)+ .. }) }", "rmap(), 0, 1", "rmap(), 1, 2"),
+    ("regex per listed field",
+     "($v:expr, $($f:ident),+) => { assert_struct!($v, _ { $($f: =~ r\"^h\",)+ .. }) }", "RS { s: \"hi\".into(), t: \"ho\".into() }, s, t", "RS { s: \"hi\".into(), t: \"no\".into() }, t, s"),
+    ("string literal per listed field",
+     "($v:expr, $($f:ident),+) => { assert_struct!($v, _ { $($f: \"hi\",)+ .. }) }", "RS { s: \"hi\".into(), t: \"hi\".into() }, s, t", "RS { s: \"hi\".into(), t: \"no\".into() }, s, t"),
+    # (a sub-pattern handed over by the CALLER of the helper is not tried: pattern tokens from another hygiene context than the
+    # invocation's do not see the expansion's own locals at all, observation O17 of DESIGN.md, no property states otherwise)
+    ("two levels of repetition",
+     "($v:expr, $([$($e:expr),+]),+) => { assert_struct!($v, [ $([ $(== $e),+ ]),+ ]) }", "vec![vec![1, 2], vec![3, 4]], [1, 2], [3, 4]", "vec![vec![1, 2], vec![3, 4]], [1, 2], [4, 3]"),
+]
+REPEATED_DECLS = """
+#[derive(Debug, Clone, PartialEq)] struct R3 { a: i32, b: i32, c: i32 }
+#[derive(Debug, Clone, PartialEq)] struct RS { s: String, t: String }
+#[derive(Debug, Clone, PartialEq)] enum RV { T(i32, i32) }
+fn rmap() -> std::collections::BTreeMap<String, i32> { std::collections::BTreeMap::from([("x".to_string(), 1), ("y".to_string(), 2), ("z".to_string(), 0)]) }
+"""
+
+
+def repeated_program(helper, ok_call, bad_call):
+    return ("use assert_struct::assert_struct;\n" + REPEATED_DECLS + "macro_rules! stamped { %s; }\n" % helper +
+            "#[allow(unused, clippy::all)] fn main() { std::panic::set_hook(Box::new(|_| {})); stamped!(%s);\n"
+            "  let r = std::panic::catch_unwind(|| { stamped!(%s); }); if r.is_ok() { std::process::exit(3); } }\n" % (ok_call, bad_call))
+
+
+def rustc_repeated_patterns(res):
+    import e2e
+    progs = [repeated_program(h, a, b) for _, h, a, b in REPEATED]
+    out = e2e.compile_many(progs, run=True, tag="c14m")
+    e2e.cleanup("c14m")
+    bad = 0
+    for (d, h, a, b), o, src in zip(REPEATED, out, progs):
+        if o["compiled"] and o.get("exit", 0) == 0:
+            continue
+        bad += 1
+        if bad <= 3:
+            if not o["compiled"]:
+                first = next((l for l in o["stderr"].splitlines() if l.startswith("error")), o["stderr"][:200])
+                why = "is accepted by the macro but its expansion is rejected by rustc: " + first[:300]
+            else:
+                why = "gives the wrong verdict (exit %s: 101 = the true assertion failed, 3 = the false one passed)" % o.get("exit")
+            res.violation("failing-input", "a pattern stamped out by a macro_rules! repetition (%s: `%s`) %s" % (d, h, why),
+                          {"program": src, "stderr": o["stderr"][-1500:]})
+    res.streams["patterns-from-macro-repetitions(rustc)"] = {"programs": len(progs), "rejected_or_wrong": bad}
+    return bad
+
+
 def run(res):
     res.trusted += ["Coq 8.16.1 kernel (coqc)", "extraction to OCaml (ExtrOcamlBasic only), ocaml/conv.ml, ocaml/irconv.ml, ocaml/main.ml",
                     "harness/mac: the macro crate's own parse.rs/pattern*/expand* compiled as a binary with a shim root, "
@@ -149,6 +220,12 @@ def run(res):
     failing += vbad
     if not vbad:
         res.discharged.append(name_v)
+    name_m = "direct:patterns stamped out by macro_rules! repetitions (sibling sub-patterns made of the same tokens) compile and run (rustc)"
+    res.obligations.append(name_m)
+    mbad = rustc_repeated_patterns(res)
+    failing += mbad
+    if not mbad:
+        res.discharged.append(name_m)
     expstage.report_disagreement(res, name, dis, failing > 0 or hist_bad > 0)
     if not dis and not failing and not hist_bad:
         res.discharged.append(name)
